@@ -336,7 +336,7 @@ macro_rules! spec_harness { ($n128:ident, $n192:ident, $bits:expr, $unw:expr) =>
 // a = [k + t*n, 1], b = [+-n, 0] (t in -2..2, optionally exchanged).  Here the
 // second coordinate of a lattice vector determines the first one modulo n, so
 // ONE call suffices: u0 is the centered residue of u1*k (|u0| <= |u| < n/2),
-// v0 is the residue r of v1*k, r - n or r + n, whichever gives det(u, v) = +-n.
+// v0 is the residue r of v1*k, r - n or r + n (one of them must do).
 // Checked for all k < n < 2^BITS (n >= 5): such (u0, v0) exist, the basis is
 // size-reduced, N(u) <= N(v), returned bit length = bitlen(N(v)).
 
@@ -364,16 +364,21 @@ fn spec_kn_check(bits: u32, k: i32, n: i32, r: ([u64; 2], [u64; 2], u32)) {
     let cen = |x: i64| { let r = x.rem_euclid(n); if 2 * r > n { r - n } else { r } };
     let u0 = cen(mul(u1, k));
     let r = mul(v1, k).rem_euclid(n);
-    let det = |v0: i64| add(mul(u0, v1), -mul(u1, v0));
-    let ok = |v0: i64| det(v0) == n || det(v0) == -n;
-    assert!(ok(r) || ok(r - n) || ok(r + n));
-    let v0 = if ok(r) { r } else if ok(r - n) { r - n } else { r + n };
     let nu = add(mul(u0, u0), mul(u1, u1));
+    // v0 is r, r - n or r + n: SOME candidate must complete u into a size-reduced
+    // basis of determinant +-n whose squared norm has the returned bit length
+    // (for |u1| = 2 two candidates have determinant +-n, only one is reduced)
+    let good = |v0: i64| -> bool {
+        let det = add(mul(u0, v1), -mul(u1, v0));
+        let nv = add(mul(v0, v0), mul(v1, v1));
+        let sp = add(mul(u0, v0), mul(u1, v1));
+        (det == n || det == -n) && nu <= nv && add(sp, sp) <= nu && -add(sp, sp) <= nu
+            && bl == 64 - (nv as u64).leading_zeros()
+    };
+    assert!(good(r) || good(r - n) || good(r + n));
+    let v0 = if good(r) { r } else if good(r - n) { r - n } else { r + n };
     let nv = add(mul(v0, v0), mul(v1, v1));
     let sp = add(mul(u0, v0), mul(u1, v1));
-    assert!(nu <= nv);
-    assert!(add(sp, sp) <= nu && -add(sp, sp) <= nu);
-    assert!(bl == 64 - (nv as u64).leading_zeros());
     kani::cover!(sp < 0 && nu < nv);
     kani::cover!(sp > 0 && u1 < 0);
     kani::cover!(k == 0);
